@@ -148,6 +148,11 @@ def stream(ctx, n, order, tts, positions=None, total=None):
                     elif p is not None and frozenset(dict(p).items()) not in seen:
                         ctx.violation('C10:pick-not-in-iter', f'pick {p} is not among pick_iter', M.case())
         M.op('decref', u0)
+        if rng.random() < 0.6:
+            # the next function lands on the node numbers of this one: nothing remembered
+            # about a node number (support, essential variables, counts) may survive
+            M.op('gc', None)
+            ctx.count('collected-between-functions')
     ctx.sample(dict(stream=M.s.label, first_lines=M.s.lines[:8]))
 
 
